@@ -526,12 +526,61 @@ def gen_unlocked_case(rng, cid, p_violation=0.05, ncustom=None):
                 p["user-login"] = f"user{r['by']}"
                 p["user-name"] = f"User {r['by']}"
                 p["when"] = r["when"]
+    boosted = None
     if rng.random() < 0.3:
-        boost_unpublished(rng, pkgs, store, reg, crits, notes)
+        boosted = boost_unpublished(rng, pkgs, store, reg, crits, notes)
+    if rng.random() < 0.4:
+        boost_shared_exemption(rng, pkgs, store, crits, notes)
+    # crates.io metadata matches (description) exactly for the packages declared audit-as-crates-io,
+    # so that the audit-as pre-check of `cargo vet` accepts the configuration
+    meta = {}
+    for key, ent in store["policy"].items():
+        if ent.get("audit-as-crates-io") is True:
+            meta[key.split(":")[0]] = {"description": "whatever"}
     case = {"id": cid, "kind": "resolve", "graph": {"packages": pkgs}, "store_struct": store,
-            "peers_struct": peers_struct, "registry": {"users": users, "packages": reg, "meta": {}},
+            "peers_struct": peers_struct, "registry": {"users": users, "packages": reg, "meta": meta},
             "mode": "unlocked", "allow_criteria_changes": True}
+    if boosted:
+        case["boosted_unpublished"] = boosted
     return finalize(case)
+
+
+def blanket_exemptions(store, pkgs, crits, notes, skip):
+    """exempt every non-workspace package at its exact version for everything (so that a plain
+    `cargo vet` passes on the store as generated), except crate [skip]"""
+    every = ["safe-to-deploy"] + [c for c in crits if c not in BUILTINS]
+    for p in pkgs:
+        if p["workspace"] or p["name"] == skip:
+            continue
+        l = store["exemptions"].setdefault(p["name"], [])
+        if not any(e["version"] == vstr(p) and set(e["criteria"]) >= set(every) for e in l):
+            l.append({"version": vstr(p), "criteria": every, "suggest": True, "notes": notes()})
+
+
+def boost_shared_exemption(rng, pkgs, store, crits, notes):
+    """two in-graph versions of one crate with DIFFERENT demands (the lower one stricter), both
+    certified through one exemption: the lower directly, the higher through a delta audit"""
+    byname = {}
+    for p in pkgs:
+        if p["source"] == "registry":
+            byname.setdefault(p["name"], []).append(p["version"])
+    cands = [n for n, vs in byname.items() if len(vs) == 2 and all(v in VERSIONS for v in vs)
+             and sum(1 for q in pkgs if q["name"] == n) == 2]
+    if not cands:
+        return
+    n = rng.choice(sorted(cands))
+    lo, hi = sorted(byname[n], key=VERSIONS.index)
+    strong = rng.choice([c for c in crits if c != "safe-to-run"])
+    for k in [k for k in store["policy"] if k.split(":")[0] == n]:
+        del store["policy"][k]
+    store["policy"][f"{n}:{lo}"] = {"criteria": [strong]}
+    store["policy"][f"{n}:{hi}"] = {"criteria": ["safe-to-run"]}
+    every = ["safe-to-deploy"] + [c for c in crits if c not in BUILTINS]
+    store["exemptions"][n] = [{"version": lo, "criteria": every, "suggest": True, "notes": notes()}]
+    store["audits"][n] = [a for a in store["audits"].get(n, []) if a.get("kind") != "violation"]
+    store["audits"][n].append({"kind": "delta", "from": lo, "to": hi, "criteria": every, "notes": notes()})
+    for tbl in ("wildcard_audits", "trusted"):
+        store[tbl].pop(n, None)
 
 
 def boost_unpublished(rng, pkgs, store, reg, crits, notes):
@@ -545,6 +594,17 @@ def boost_unpublished(rng, pkgs, store, reg, crits, notes):
     same = [q for q in pkgs if q["name"] == p["name"]]
     if len(same) > 1:
         return
+    if rng.random() < 0.7:
+        # move the crate to a high version so that two published versions can lie below it
+        nv = rng.choice(["4.0.0", "5.0.0"])
+        for q in pkgs:
+            for d in q["deps"]:
+                if d["name"] == p["name"] and d["version"] == p["version"] and d["source"] == p["source"]:
+                    d["version"] = nv
+        p["version"] = nv
+        for tbl in ("audits", "exemptions", "wildcard_audits", "trusted"):
+            store[tbl].pop(p["name"], None)
+        store["lock"]["publisher"].pop(p["name"], None)
     v = p["version"]
     i = VERSIONS.index(v) if v in VERSIONS else None
     if i is None:
@@ -568,6 +628,7 @@ def boost_unpublished(rng, pkgs, store, reg, crits, notes):
     l.append({"kind": "full", "version": cur, "criteria": ["safe-to-deploy"] + [c for c in crits if c not in BUILTINS], "notes": notes()})
     if rng.random() < 0.4:
         l.append({"kind": "full", "version": old, "criteria": crit_list(rng, crits), "notes": notes()})
+    return p["name"]
 
 
 ALL_MODES = [
@@ -642,7 +703,11 @@ def gen_history(rng, cid, length=None):
         steps.append({"args": args, "remote": render_remote(peers, registry)})
 
     first = rng.random()
-    if first < 0.6:
+    if base.get("boosted_unpublished") and rng.random() < 0.7:
+        # the store as generated passes a plain `cargo vet` (stale imports.lock records and all)
+        blanket_exemptions(store, base["graph"]["packages"], crits, notes, base["boosted_unpublished"])
+        add(["check"])
+    elif first < 0.6:
         add(["regenerate", "exemptions"])
     elif first < 0.8:
         add(["check"])
